@@ -3,5 +3,5 @@ from props._forest import bounded_for, replay_for
 META = {"level": "proof",
         "trusted_base": ["assumed contracts of intervaltree / collections.abc mixins (see DESIGN 3.7)"],
         "assumptions": []}
-bounded = bounded_for("C05")
-replay_obligation = replay_for("C05")
+bounded = bounded_for("C12")
+replay_obligation = replay_for("C12")
